@@ -11,6 +11,8 @@ type TimeSeriesSelectPlanner struct {
 	/* StreamSelectPlanner or union of StreamSelectPlanners */
 	Fp        shared.SQLRequestPlanner
 	Selectors []parser.Selector
+	/* alias of the fingerprints sub-request; "fp" when empty */
+	FpAlias string
 }
 
 func (t *TimeSeriesSelectPlanner) Process(ctx *shared.PlannerContext) (sql.ISelect, error) {
@@ -18,7 +20,11 @@ func (t *TimeSeriesSelectPlanner) Process(ctx *shared.PlannerContext) (sql.ISele
 	if err != nil {
 		return nil, err
 	}
-	withFp := sql.NewWith(fp, "fp")
+	fpAlias := t.FpAlias
+	if fpAlias == "" {
+		fpAlias = "fp"
+	}
+	withFp := sql.NewWith(fp, fpAlias)
 
 	matchers, err := (&StreamSelectorPlanner{Selectors: t.Selectors}).getMatchers()
 	if err != nil {
